@@ -1112,24 +1112,30 @@ func (i *Interpreter) executeGenericFunction(fn Function, typeArgs []Type, args 
 		resolvedTypeArgs = typeArgs
 	}
 
+	// Type arguments may mention the type parameters of the generic function
+	// this call is nested in: resolve them from that call's bindings
+	if outer := env.enclosingTypeBindings(); outer != nil {
+		substituted := make([]Type, len(resolvedTypeArgs))
+		for idx, t := range resolvedTypeArgs {
+			substituted[idx] = i.typeChecker.SubstituteTypeParams(t, outer)
+		}
+		resolvedTypeArgs = substituted
+	}
+
 	// Instantiate the generic function with resolved type arguments
 	instantiatedFn, typeBindings, err := i.typeChecker.InstantiateGenericFunction(fn, resolvedTypeArgs)
 	if err != nil {
 		return nil, fmt.Errorf("failed to instantiate generic function %s: %v", fn.Name, err)
 	}
 
-	// Push type bindings onto the type scope for nested generic type resolution
-	i.typeChecker.PushTypeScope(typeBindings)
-	defer func() {
-		names := make([]string, 0, len(typeBindings))
-		for name := range typeBindings {
-			names = append(names, name)
-		}
-		i.typeChecker.PopTypeScope(names)
-	}()
-
 	// Create a new environment for the function (module scope as parent, see executeFunction)
 	fnEnv := newCallScope(i.globalEnv, env)
+
+	// The type bindings live in the call's own scope, where nested generic
+	// calls find them. (They used to be pushed onto the interpreter's shared
+	// type checker, where concurrent requests overwrote and deleted each
+	// other's bindings: a concurrent map write.)
+	fnEnv.typeBindings = typeBindings
 
 	// Validate argument count
 	if len(argValues) != len(instantiatedFn.Params) {
